@@ -127,7 +127,7 @@ def stepLoaded (c : Content) : Op → Content × Out
   | .findAll ps d => (c, .ints (ps.map fun p => find c p d))
   | .table t => (c, freshTable c.groups t)
   | .cached => (c, .ok)
-  | .gdump => (c, .groups c.groups)
+  | .gdump => (c, .dump c.groups)
   | .kdump => (c, .kern c.kerning)
   | .reloadGroups =>
     if !c.hasPath then (c, .err "TypeError")
